@@ -629,7 +629,12 @@ class SymFP(Sym):
                     b = z3.fpToFP(_RNE, b, WIDE)
             return a, b
         if isinstance(o, SymNum):
-            raise Unsupported("mixing IEEE and real/integer symbolic values")
+            # a selection between constants (value * mask, masked assignment of constants): exact in every IEEE format that
+            # holds the constants; anything else is a genuine mix of the two arithmetics
+            conv = _const_tree_to_fp(z3.simplify(o.t), self.sort)
+            if conv is None:
+                raise Unsupported("mixing IEEE and real/integer symbolic values")
+            return self.t, conv
         if isinstance(o, SymBool):
             return self.t, z3.If(o.t, _fpval(1, self.sort), _fpval(0, self.sort))
         if self.code and isinstance(o, int) and not isinstance(o, bool) and self.sort == F64 and int(float(o)) != o:
@@ -756,6 +761,26 @@ class SymFP(Sym):
     @property
     def is_int(self):
         return False
+
+
+def _const_tree_to_fp(t, sort):
+    """ite-tree over numerals (possibly under to_real) -> the same tree over FP literals; None if t is anything else or a
+    leaf is not exactly representable."""
+    if z3.is_rational_value(t) or z3.is_int_value(t):
+        q = Fraction(t.numerator_as_long(), t.denominator_as_long()) if z3.is_rational_value(t) else Fraction(t.as_long())
+        f = float(q)
+        # real-arithmetic numerals of Python floats are the decimal the float prints as (33/20 for 1.65): map them back to that double
+        if sort != F64 or (Fraction(f) != q and Fraction(repr(f)) != q):
+            return None
+        return z3.FPVal(f, sort)
+    if z3.is_app(t) and t.decl().kind() == z3.Z3_OP_TO_REAL:
+        return _const_tree_to_fp(t.arg(0), sort)
+    if z3.is_app(t) and t.decl().kind() == z3.Z3_OP_ITE:
+        a, b = _const_tree_to_fp(t.arg(1), sort), _const_tree_to_fp(t.arg(2), sort)
+        if a is None or b is None:
+            return None
+        return z3.If(t.arg(0), a, b)
+    return None
 
 
 def _fl_down(n: int) -> float:
